@@ -2,99 +2,103 @@
 (* C07: every committed write reaches every live query it affects.              *)
 (*                                                                            *)
 (* State: the table; the change log (binlog) between commit and delivery; per    *)
-(* live query its dependency registration, the rows it holds, whether it has     *)
-(* been invalidated.  One action per step of the real code:                      *)
+(* live query the dependencies it has registered with the tracker, the rows it   *)
+(* holds, whether it has been invalidated.  One action per step of the code:     *)
 (*   Write      a statement commits: the table changes and a change event with   *)
-(*              the row before and after is appended to the log (fakesql /       *)
-(*              MySQL);                                                          *)
-(*   Deliver    RunPollLoop takes the next event, decodes it, and                *)
-(*              dbTracker.processBinlog invalidates every REGISTERED query       *)
-(*              whose filter matches the row before or after; an event that      *)
-(*              cannot be decoded must invalidate every registered query on      *)
-(*              the table (BadInvalidates);                                      *)
-(*   Begin      a (re)run of the query starts: the previous run's dependency     *)
-(*              is released (reactive cache cleanup -> tracker.remove);          *)
-(*   Register   livesql registers the dependency (tracker.add);                  *)
+(*              the row before and after is appended to the log;                 *)
+(*   Garble     an undelivered event takes a form the poll loop cannot decode    *)
+(*              (column count / type mismatch after a schema change);            *)
+(*   Deliver    RunPollLoop takes the next event; dbTracker.processBinlog        *)
+(*              invalidates every REGISTERED dependency whose filter matches     *)
+(*              the row before or after; an event that cannot be decoded must    *)
+(*              invalidate every dependency on the table (BadInvalidates);       *)
+(*   Begin      a (re)run of the query starts; the dependency of the previous    *)
+(*              run is no longer current (it lingers until Unregister: reactive  *)
+(*              releases it a little later -> Resource.Cleanup -> tracker.remove)*)
+(*   Register   livesql registers this run's dependency (tracker.add);           *)
 (*   Read       the SELECT executes: the query now holds Rows(table, filter).    *)
-(*   RegisterFirst = TRUE is the order the code uses (register, then read);       *)
-(*   FALSE (read, then register) loses writes that commit in between.            *)
-(* Converged: when nothing is in flight, every query holds exactly the rows the  *)
-(* table has for its filter.                                                     *)
+(* RegisterFirst = TRUE is the order the code uses (register, then read);        *)
+(* FALSE (read, then register) loses writes that commit in between.              *)
+(* PerQuery / Converged: a query that is not running, not invalidated and not    *)
+(* affected by anything still in the log holds exactly the rows the table has    *)
+(* for its filter.                                                              *)
 EXTENDS Integers, Sequences, FiniteSets, TLC
 
-CONSTANTS Queries,         \* live queries
-          Filter,          \* query -> filter (column -> value), {} = all rows
-          Ids, Vals,       \* row universe: id x value of the one filtered column "org"
+CONSTANTS Queries,         \* names of live queries (a scenario uses some of them)
+          Ids, Vals,       \* the model checker's row universe: [id, org]
           MaxWrites, MaxBad,
           RegisterFirst, BadInvalidates
 
-VARIABLES table,     \* id -> value, for the ids present
-          log,       \* Seq of [before, after, bad]; a row is <<id, val>> or <<>> (absent)
+VARIABLES filt,      \* active query -> filter (column -> [v |-> value or "NULL", ..]); empty filter = all rows
+          table,     \* id -> row (a record column -> value, "NULL" for NULL), for the ids present
+          log,       \* Seq of [before, after, bad]; NoRow = absent
           pc,        \* query -> "idle" | "begun" | "registered" | "readfirst" | "held"
-          dep,       \* query -> BOOLEAN : dependency registered with the tracker
+          ndep,      \* query -> number of dependencies registered with the tracker
+          cur,       \* query -> BOOLEAN : the current run's dependency is among them
           held,      \* query -> set of ids
-          dirty,     \* query -> BOOLEAN : invalidated since its run began
+          dirty,     \* query -> BOOLEAN : invalidated since its run began (or never ran)
           nw, nbad
-vars == <<table, log, pc, dep, held, dirty, nw, nbad>>
+vars == <<filt, table, log, pc, ndep, cur, held, dirty, nw, nbad>>
 
-NoRow == <<>>
-Matches(f, row) == row # NoRow /\ (\A c \in DOMAIN f : (c = "id" /\ row[1] = f[c]) \/ (c = "org" /\ row[2] = f[c]))
-Rows(t, f) == {i \in DOMAIN t : Matches(f, <<i, t[i]>>)}
+Active == DOMAIN filt
+NULL == "NULL"
+NoRow == [id |-> "NONE"]
+\* sqlgen's Tester: every filter column equals the row's column as SQL values; nil matches NULL
+Matches(f, row) == row.id # "NONE" /\ (\A c \in DOMAIN f : row[c] = f[c].v)
+Rows(t, f) == {i \in DOMAIN t : Matches(f, t[i])}
+Row(i, v) == [id |-> i, org |-> v]
 
-Init == /\ table \in [{} -> Vals] \cup UNION {[{i} -> Vals] : i \in Ids}
-        /\ log = <<>>
-        /\ pc = [q \in Queries |-> "idle"] /\ dep = [q \in Queries |-> FALSE]
-        /\ held = [q \in Queries |-> {}] /\ dirty = [q \in Queries |-> TRUE]     \* never ran = has to run
-        /\ nw = 0 /\ nbad = 0
-
-Ev(b, a) == [before |-> b, after |-> a, bad |-> FALSE]
+\* maybe: whether the event can be decoded is not known in advance (trace validation, after ALTER TABLE)
+Ev(b, a) == [before |-> b, after |-> a, bad |-> FALSE, maybe |-> FALSE]
 Write ==
   /\ nw < MaxWrites /\ nw' = nw + 1
   /\ \/ \E i \in (Ids \ DOMAIN table) : \E v \in Vals :                           \* insert
-          /\ table' = [j \in DOMAIN table \cup {i} |-> IF j = i THEN v ELSE table[j]]
-          /\ log' = Append(log, Ev(NoRow, <<i, v>>))
-     \/ \E i \in DOMAIN table : \E v \in Vals \ {table[i]} :                       \* update
-          /\ table' = [table EXCEPT ![i] = v]
-          /\ log' = Append(log, Ev(<<i, table[i]>>, <<i, v>>))
+          /\ table' = [j \in DOMAIN table \cup {i} |-> IF j = i THEN Row(i, v) ELSE table[j]]
+          /\ log' = Append(log, Ev(NoRow, Row(i, v)))
+     \/ \E i \in DOMAIN table : \E v \in Vals \ {table[i].org} :                   \* update
+          /\ table' = [table EXCEPT ![i] = Row(i, v)]
+          /\ log' = Append(log, Ev(table[i], Row(i, v)))
      \/ \E i \in DOMAIN table :                                                    \* delete
           /\ table' = [j \in DOMAIN table \ {i} |-> table[j]]
-          /\ log' = Append(log, Ev(<<i, table[i]>>, NoRow))
-  /\ UNCHANGED <<pc, dep, held, dirty, nbad>>
-\* the event reaches the poll loop in a form it cannot decode (column count / type mismatch after a schema change)
+          /\ log' = Append(log, Ev(table[i], NoRow))
+  /\ UNCHANGED <<filt, pc, ndep, cur, held, dirty, nbad>>
 Garble ==
   /\ nbad < MaxBad /\ nbad' = nbad + 1
   /\ \E k \in DOMAIN log : ~log[k].bad /\ log' = [log EXCEPT ![k].bad = TRUE]
-  /\ UNCHANGED <<table, pc, dep, held, dirty, nw>>
-Affected(ev, q) == IF ev.bad THEN BadInvalidates ELSE Matches(Filter[q], ev.before) \/ Matches(Filter[q], ev.after)
+  /\ UNCHANGED <<filt, table, pc, ndep, cur, held, dirty, nw>>
+Touches(ev, q) == Matches(filt[q], ev.before) \/ Matches(filt[q], ev.after)
+Affected(ev, q) == IF ev.bad THEN BadInvalidates ELSE Touches(ev, q)
 Deliver ==
   /\ log # <<>>
-  /\ dirty' = [q \in Queries |-> dirty[q] \/ (dep[q] /\ Affected(Head(log), q))]
+  /\ dirty' = [q \in Queries |-> dirty[q] \/ (q \in Active /\ cur[q] /\ Affected(Head(log), q))]
   /\ log' = Tail(log)
-  /\ UNCHANGED <<table, pc, dep, held, nw, nbad>>
+  /\ UNCHANGED <<filt, table, pc, ndep, cur, held, nw, nbad>>
 Begin(q) ==
-  /\ pc[q] \in {"idle", "held"} /\ dirty[q]
-  /\ pc' = [pc EXCEPT ![q] = "begun"] /\ dep' = [dep EXCEPT ![q] = FALSE] /\ dirty' = [dirty EXCEPT ![q] = FALSE]
-  /\ UNCHANGED <<table, log, held, nw, nbad>>
+  /\ q \in Active /\ pc[q] \in {"idle", "held"} /\ dirty[q]
+  /\ pc' = [pc EXCEPT ![q] = "begun"] /\ dirty' = [dirty EXCEPT ![q] = FALSE] /\ cur' = [cur EXCEPT ![q] = FALSE]
+  /\ UNCHANGED <<filt, table, log, ndep, held, nw, nbad>>
+Unregister(q) ==
+  /\ q \in Active /\ ndep[q] > (IF cur[q] THEN 1 ELSE 0)
+  /\ ndep' = [ndep EXCEPT ![q] = @ - 1]
+  /\ UNCHANGED <<filt, table, log, pc, cur, held, dirty, nw, nbad>>
 Register(q) ==
-  /\ pc[q] = (IF RegisterFirst THEN "begun" ELSE "readfirst")
-  /\ dep' = [dep EXCEPT ![q] = TRUE]
+  /\ q \in Active /\ pc[q] = (IF RegisterFirst THEN "begun" ELSE "readfirst")
+  /\ ndep' = [ndep EXCEPT ![q] = @ + 1] /\ cur' = [cur EXCEPT ![q] = TRUE]
   /\ pc' = [pc EXCEPT ![q] = IF RegisterFirst THEN "registered" ELSE "held"]
-  /\ UNCHANGED <<table, log, held, dirty, nw, nbad>>
+  /\ UNCHANGED <<filt, table, log, held, dirty, nw, nbad>>
 Read(q) ==
-  /\ pc[q] = (IF RegisterFirst THEN "registered" ELSE "begun")
-  /\ held' = [held EXCEPT ![q] = Rows(table, Filter[q])]
+  /\ q \in Active /\ pc[q] = (IF RegisterFirst THEN "registered" ELSE "begun")
+  /\ held' = [held EXCEPT ![q] = Rows(table, filt[q])]
   /\ pc' = [pc EXCEPT ![q] = IF RegisterFirst THEN "held" ELSE "readfirst"]
-  /\ UNCHANGED <<table, log, dep, dirty, nw, nbad>>
+  /\ UNCHANGED <<filt, table, log, ndep, cur, dirty, nw, nbad>>
 
-Next == Write \/ Garble \/ Deliver \/ \E q \in Queries : Begin(q) \/ Register(q) \/ Read(q)
-Spec == Init /\ [][Next]_vars /\ WF_vars(Deliver) /\ \A q \in Queries : WF_vars(Begin(q)) /\ WF_vars(Register(q)) /\ WF_vars(Read(q))
+Next == Write \/ Garble \/ Deliver \/ \E q \in Queries : Begin(q) \/ Unregister(q) \/ Register(q) \/ Read(q)
+Fair == WF_vars(Deliver) /\ \A q \in Queries : WF_vars(Begin(q)) /\ WF_vars(Unregister(q)) /\ WF_vars(Register(q)) /\ WF_vars(Read(q))
 
-Quiescent == log = <<>> /\ \A q \in Queries : pc[q] = "held" /\ ~dirty[q]
-Converged == Quiescent => \A q \in Queries : held[q] = Rows(table, Filter[q])
-\* a query that holds rows while nothing that affects it is in flight holds the right rows
-\* (stronger, per query: no event in the log affects it, it is not dirty and it is not running)
-Settled(q) == pc[q] = "held" /\ ~dirty[q] /\ \A k \in DOMAIN log : ~(IF log[k].bad THEN TRUE ELSE Matches(Filter[q], log[k].before) \/ Matches(Filter[q], log[k].after))
-PerQuery == \A q \in Queries : Settled(q) => held[q] = Rows(table, Filter[q])
-DepWhileHeld == \A q \in Queries : pc[q] = "held" => dep[q]
+Quiescent == log = <<>> /\ \A q \in Active : pc[q] = "held" /\ ~dirty[q]
+Converged == Quiescent => \A q \in Active : held[q] = Rows(table, filt[q])
+Settled(q) == pc[q] = "held" /\ ~dirty[q] /\ \A k \in DOMAIN log : ~(log[k].bad \/ log[k].maybe \/ Touches(log[k], q))
+PerQuery == \A q \in Active : Settled(q) => held[q] = Rows(table, filt[q])
+CurWhileHeld == \A q \in Active : pc[q] = "held" => cur[q] /\ ndep[q] >= 1
 EventuallyQuiescent == <>[](nw = MaxWrites => Quiescent)
 =============================================================================
